@@ -12,6 +12,8 @@ Case (JSON):
    "k": 2 | null,                                         # max_concurrent (null = inf)
    "fail": [tags], "vanish": {tag: "idle" | "locked"},
    "script": [round, ...] | null,                         # round = {"acq": [tags], "fin": [tags], "van": [tags], "done": [tags]}
+   "race": {"job": tag, "round": r} | absent,             # let `tag` fail *during* the poll of round r, between the
+                                                          #   submitter's first and second read of its status (class Racer)
    "policy": {"seed": n, "style": "random" | "fifo" | "greedy" | "lazy"}}
 
 A *tag* names a body: "<node>" or "<node>.<split value>".
@@ -271,6 +273,9 @@ class Player:
                 else:
                     mv = self.choose(pending)
                 self.schedule.append(mv)
+                race = self.case.get("race")
+                if race and r == race["round"] and self.c.racer is not None:
+                    self.c.racer.arm()  # from now on `load_result` is gated (pydra/utils/verif_hooks.py)
                 if os.environ.get("VERIF_SCHED_TRACE"):
                     print("PLAY", r, pending, mv, file=sys.stderr, flush=True)
                 await self.play_round(mv, pending)
@@ -284,6 +289,99 @@ class Player:
 
 # --------------------------------------------------------------------------------------------------
 # running one case (child side)
+
+
+class Racer:
+    """Forces one interleaving *inside* a poll with the `load_result` gate of pydra/utils/verif_hooks.py: once armed,
+    every `load_result` (in every process) announces itself and waits; a helper thread releases them at once, except
+    the second read of the raced job's result by the submitter process, which is held until that job has failed on disk
+    (finish token "err" written, errored result saved).  Everything is synchronised on files."""
+
+    def __init__(self, vdir: Path, ctl_dir: Path, cache_root: Path, spec: dict):
+        import threading
+
+        self.vdir, self.ctl_dir, self.cache_root, self.spec = Path(vdir), Path(ctl_dir), Path(cache_root), spec
+        for d in ("gates", "waiting", "release"):
+            (self.vdir / d).mkdir(parents=True, exist_ok=True)
+        os.environ["NIPYPE_PYDRA_VERIF_DIR"] = str(self.vdir)
+        os.environ["NIPYPE_PYDRA_VERIF_GATE_TIMEOUT"] = "600"
+        self.main_pid = os.getpid()
+        self.armed = False
+        self.done = False
+        self.reads = 0
+        self.log: list[str] = []
+        self._stop = threading.Event()
+        self._seen: set[str] = set()
+        self._t = threading.Thread(target=self._run, daemon=True)
+
+    def arm(self):
+        # the helper thread is started only now: the process pool has forked its workers at the first dispatch
+        if not self._t.is_alive():
+            self._t.start()
+        (self.vdir / "gates" / "load_result").touch()
+        self.armed = True
+        self.log.append("armed")
+
+    def _label(self, pid: int, n: int) -> str | None:
+        try:
+            k = 0
+            for line in (self.vdir / "events.log").read_text().splitlines():
+                p = line.split()
+                if len(p) >= 3 and p[0] == str(pid) and p[1] == "load_result":
+                    k += 1
+                    if k == n:
+                        return p[2]
+        except OSError:
+            pass
+        return None
+
+    def _run(self):
+        from harness.engines import sched_worker as W
+
+        while not self._stop.is_set():
+            try:
+                names = sorted(os.listdir(self.vdir / "waiting"))
+            except OSError:
+                names = []
+            for tag in names:
+                if tag in self._seen:
+                    continue
+                self._seen.add(tag)
+                pid, _point, n = tag.rsplit(".", 2)[0].split(".")[0], None, tag.rsplit(".", 1)[1]
+                label = self._label(int(pid), int(n))
+                ck = (W.CONTROL.tag_of_ck if W.CONTROL else {})
+                if self.armed and not self.done and int(pid) == self.main_pid and label and ck.get(label) == self.spec["job"]:
+                    self.reads += 1
+                    if self.reads == 2:
+                        # the submitter is inside its second read of this job's status within one poll: let the job fail now
+                        tok = self.ctl_dir / (self.spec["job"] + ".finish")
+                        tok.with_suffix(".tmp").write_text("err")
+                        tok.with_suffix(".tmp").rename(tok)
+                        res = self.cache_root / label / "_result.pklz"
+                        lock = self.cache_root / (label + ".lock")
+                        t0 = time.time()
+                        while time.time() - t0 < 300 and not (res.exists() and res.stat().st_size > 0 and not lock.exists()):
+                            time.sleep(0.005)
+                        self.log.append(f"failed {self.spec['job']} during read 2: result on disk = {res.exists()}")
+                        self.done = True
+                        try:
+                            (self.vdir / "gates" / "load_result").unlink()
+                        except OSError:
+                            pass
+                (self.vdir / "release" / tag).touch()
+            time.sleep(0.003)
+
+    def stop(self):
+        self._stop.set()
+        try:
+            (self.vdir / "release" / "all").touch()
+            (self.vdir / "gates" / "load_result").unlink()
+        except OSError:
+            pass
+        os.environ.pop("NIPYPE_PYDRA_VERIF_DIR", None)
+
+    def report(self) -> dict:
+        return {"reads": self.reads, "forced": self.done, "log": self.log}
 
 
 def parse_named(msg: str, case: dict) -> list[str]:
@@ -363,6 +461,10 @@ def run_controlled(case: dict, scratch: Path) -> dict:
     wf = getattr(mod, f"W_{uid}")(ctl=str(ctl_dir), mode="gate")
     ctl = W.Control(ctl_dir, k)
     W.CONTROL = ctl
+    racer = None
+    if case.get("race"):
+        racer = Racer(base / "vdir", ctl_dir, cache_root, case["race"])
+        ctl.racer = racer
     outcome, msg, outputs = "ok", "", None
     try:
         # enough processes for every body the schedule may open at once; one more than the limit, so that a
@@ -459,6 +561,9 @@ def run_controlled(case: dict, scratch: Path) -> dict:
             "msg": msg[-600:] if outcome in ("DEVICE-TIMEOUT",) or os.environ.get("VERIF_SCHED_DEBUG") else "",
         }
     finally:
+        if racer is not None:
+            racer.stop()
+            obs["race"] = racer.report() if isinstance(obs, dict) else None
         W.CONTROL = None
         Workflow.clear_cache()
         sys.modules.pop(f"schedgen_{uid}", None)
@@ -878,6 +983,9 @@ def explore(ctx, cases: list[dict], spec, what: str, nproc: int | None = None, d
             mv, mt = None, []
         else:
             mv, mt = model_view(c, ans[i]) if ans is not None else (None, [])
+        if c.get("race"):
+            mv, mt = None, []  # a change on disk *during* a poll: finer than the model's interleaving (atomic polls)
+            ctx.count("intra-poll race (not modelled)")
         if iv.get("outcome") == "rejected":
             mv, mt = None, []  # the workflow was never constructed: outside the scheduler model
             ctx.count("back edge rejected at construction (not modelled)")
